@@ -340,7 +340,7 @@ pub fn generate(seed: u64, scenario: Scenario) -> Case {
             21 => Op::Gc,
             23 => Op::TagSet(rng.below(3) as u8, v),
             24 => Op::TagRemove(rng.below(3) as u8),
-            _ => match rng.below(10) {
+            _ => match rng.below(14) {
                 0 => Op::CallTwinA(rng.below(2) as u8),
                 1 => Op::CallTwinB(rng.below(2) as u8),
                 2 => Op::CallTwinC(rng.below(2) as u8),
